@@ -4,6 +4,7 @@ import (
 	"encoding/binary"
 	"errors"
 	"fmt"
+	"math"
 	"strings"
 )
 
@@ -151,6 +152,14 @@ func (aa ArchiveInfoList) validate() error {
 		return fmt.Errorf("no retentions")
 	}
 
+	size := uint64(metaSize) + uint64(len(aa))*archiveInfoListSize
+	for _, a := range aa {
+		size += uint64(a.numberOfPoints) * pointSize
+	}
+	if size > math.MaxUint32 {
+		return fmt.Errorf("file size %v does not fit in 32-bit offsets", size)
+	}
+
 	off := metaSize + uint32(len(aa))*archiveInfoListSize
 	for i, a := range aa {
 		if err := a.validate(); err != nil {
@@ -212,6 +221,9 @@ func (a ArchiveInfo) validate() error {
 	}
 	if a.numberOfPoints <= 0 {
 		return errors.New("number of points must be positive")
+	}
+	if int64(a.secondsPerPoint)*int64(a.numberOfPoints) > math.MaxInt32 {
+		return errors.New("retention must fit in 31 bits")
 	}
 	return nil
 }
